@@ -906,6 +906,197 @@ def cfg_stage(ctx, seeds_only=False):
 
 
 
+# ============================================================================ ONE Response whose header list is edited between requests
+EDIT_KEYS = ["Location", "location", "LOCATION", "LoCaTiOn", "X-Other", "Content-Location", "ETag", "Content-Length"]
+BASE_HL = [("Content-Type", "text/plain"), ("Content-Length", "10"), ("ETag", '"tag"')]
+
+
+def rand_pairs_hl(rng, with_base=None):
+    hl = list(BASE_HL) if (rng.random() < 0.6 if with_base is None else with_base) else []
+    for _ in range(rng.choice([0, 1, 1, 1, 2])):
+        k = rng.choice(EDIT_KEYS[:4] * 3 + EDIT_KEYS[4:6])
+        hl.insert(rng.randrange(len(hl) + 1), (k, rand_value(rng, 6) if k.lower() == "location" else "x"))
+    return hl
+
+
+def rand_edit_history(rng, n=10):
+    ops = []
+    for _ in range(rng.randrange(3, n + 1)):
+        t = rng.choice(["read_headers", "read_headers", "read_headerlist", "read_location", "set_headerlist", "set_headerlist",
+                        "del_headerlist", "set_headers", "h_set", "h_add", "h_update", "h_setdefault", "h_pop", "h_del",
+                        "hl_append", "hl_insert", "hl_slice", "set_location", "set_location", "del_location", "set_cond",
+                        "serve", "serve", "serve", "serve"])
+        k = rng.choice(EDIT_KEYS[:4] * 2 + EDIT_KEYS[4:6])
+        v = rand_value(rng, 6) if k.lower() == "location" else "x"
+        if t == "set_headerlist":
+            ops.append([t, [list(x) for x in rand_pairs_hl(rng)], rng.choice(["list", "list", "tuple", "dict", "iter"])])
+        elif t == "set_headers":
+            ops.append([t, [list(x) for x in rand_pairs_hl(rng)], rng.choice(["dict", "rh", "list"])])
+        elif t in ("h_set", "h_add", "h_update", "h_setdefault", "hl_append", "hl_insert"):
+            ops.append([t, k, v])
+        elif t in ("h_pop", "h_del"):
+            ops.append([t, k])
+        elif t == "hl_slice":
+            ops.append([t, [list(x) for x in rand_pairs_hl(rng)]])
+        elif t == "set_location":
+            ops.append([t, rand_value(rng, 6)])
+        elif t == "set_cond":
+            ops.append([t, rng.random() < 0.6])
+        elif t == "serve":
+            ops.append([t, rand_env(rng), rng.choice(["GET", "GET", "HEAD"]), rng.choice(list(COND_EXTRA))])
+        else:
+            ops.append([t])
+    if not any(o[0] == "serve" for o in ops):
+        ops.append(["serve", rand_env(rng), "GET", "plain"])
+    return {"kind": "edit", "cond0": rng.random() < 0.3, "init": [list(x) for x in rand_pairs_hl(rng)], "ops": ops}
+
+
+def _serve_response(res, e, method, cond):
+    got = {}
+
+    def start_response(status, headers, exc_info=None):
+        got["status"] = status
+        got["headers"] = [tuple(h) for h in headers]
+
+    try:
+        for _ in res(wsgi_environ(e, method=method, extra=COND_EXTRA[cond]), start_response):
+            pass
+    except Exception as ex:  # noqa
+        return ["raise", type(ex).__name__]
+    return [got["status"][:3], got["headers"]]
+
+
+def run_edit_history(case, on_serve):
+    """Drive ONE Response through the edits; on_serve(i, raw header list before, result, res, env) at every serve."""
+    from webob import Response
+    from webob.headers import ResponseHeaders
+    res = Response(status="200 OK", headerlist=[tuple(x) for x in case["init"]], app_iter=[b"0123456789"],
+                   conditional_response=bool(case.get("cond0")))
+    for i, o in enumerate(case["ops"]):
+        t = o[0]
+        try:
+            if t == "read_headers":
+                list(res.headers.items())
+                "Location" in res.headers
+            elif t == "read_headerlist":
+                list(res.headerlist)
+            elif t == "read_location":
+                res.location
+            elif t == "set_headerlist":
+                pairs = [tuple(x) for x in o[1]]
+                res.headerlist = {"list": list(pairs), "tuple": tuple(pairs), "dict": dict(pairs), "iter": iter(pairs)}[o[2]]
+            elif t == "del_headerlist":
+                del res.headerlist
+            elif t == "set_headers":
+                pairs = [tuple(x) for x in o[1]]
+                res.headers = {"dict": dict(pairs), "rh": ResponseHeaders(pairs), "list": list(pairs)}[o[2]]
+            elif t == "h_set":
+                res.headers[o[1]] = o[2]
+            elif t == "h_add":
+                res.headers.add(o[1], o[2])
+            elif t == "h_update":
+                res.headers.update({o[1]: o[2]})
+            elif t == "h_setdefault":
+                res.headers.setdefault(o[1], o[2])
+            elif t == "h_pop":
+                res.headers.pop(o[1], None)
+            elif t == "h_del":
+                del res.headers[o[1]]
+            elif t == "hl_append":
+                res.headerlist.append((o[1], o[2]))
+            elif t == "hl_insert":
+                res.headerlist.insert(0, (o[1], o[2]))
+            elif t == "hl_slice":
+                res.headerlist[:] = [tuple(x) for x in o[1]]
+            elif t == "set_location":
+                res.location = o[1]
+            elif t == "del_location":
+                del res.location
+            elif t == "set_cond":
+                res.conditional_response = o[1]
+            elif t == "serve":
+                raw = [tuple(h) for h in res.headerlist]
+                r = _serve_response(res, o[1], o[2], o[3])
+                msg = on_serve(i, raw, r, res, o)
+                if msg:
+                    return msg
+        except (KeyError, ValueError):      # pop/del of a missing name, CR/LF refused by the location setter
+            pass
+    return None
+
+
+def check_edit_history(case):
+    """After any sequence of header-list edits and view reads, what is served must be the CURRENT header list with
+    every Location resolved for THIS request, exactly what a brand-new Response built from that list emits, and
+    serving must leave the response's own header list alone."""
+    from webob import Response
+
+    def on_serve(i, raw, r, res, o):
+        e = o[1]
+        where = "step %d: serve %s %s (exit %s, conditional_response=%r) with header list %r" % (
+            i, o[2], "%s://%s" % (e["scheme"], e["host"] or e["name"]), o[3], res.conditional_response, raw)
+        fresh = _serve_response(Response(status="200 OK", headerlist=list(raw), app_iter=[b"0123456789"],
+                                         conditional_response=res.conditional_response), e, o[2], o[3])
+        if r[0] == "raise":
+            return ("response:edited-raises-%s" % r[1], "%s raised %s" % (where, r[1]))
+        given = [v for k, v in raw if k.lower() == "location"]
+        out = [v for k, v in r[1] if k.lower() == "location"]
+        if len(given) != len(out):
+            return ("response:location-count", "%s emitted Locations %r" % (where, out))
+        for g, x in zip(given, out):
+            if has_alpha_scheme(g):
+                if x != g:
+                    return ("response:absolute-url-rewritten", "%s: %r must be sent unchanged, got %r" % (where, g, x))
+            elif whatwg_origin(x) != expected_origin(e):
+                return ("response:" + classify(g), "%s: scheme-less Location %r was emitted as %r, whose origin is %r, not the "
+                        "request's %r" % (where, g, x, whatwg_origin(x), expected_origin(e)))
+        if r != fresh:
+            return ("response:edited-differs-from-fresh", "%s emitted %r, a brand-new Response built from that list emits %r"
+                    % (where, r, fresh))
+        if r[0] == "200" and not res.conditional_response:
+            if [k for k, _ in r[1]] != [k for k, _ in raw] or \
+                    [v for k, v in r[1] if k.lower() != "location"] != [v for k, v in raw if k.lower() != "location"]:
+                return ("response:edited-other-headers-changed", "%s emitted %r" % (where, r[1]))
+        after = [tuple(h) for h in res.headerlist]
+        if after != raw:
+            return ("response:stored-location-rewritten", "%s: serving changed the response's header list to %r" % (where, after))
+        return None
+
+    return run_edit_history(case, on_serve)
+
+
+def edit_seeds():
+    a = mkenv(host="a.example", path="/x/y", query="q=1")
+    b = mkenv(scheme="https", host="b.example:8443", script="/app", path="/z")
+    out = []
+    for v in ["//evil.example/x", "/\t/evil.example/", "web+evil://evil.example/x", "/login"]:
+        for key in ("Location", "location"):
+            for prime in (["read_headers"], ["h_set", "X-Served-By", "n1"], ["h_pop", "ETag"], ["read_location"]):
+                for cond0 in (False, True):
+                    out.append({"kind": "edit", "cond0": cond0, "init": [list(x) for x in BASE_HL], "ops": [
+                        prime, ["set_headerlist", [list(x) for x in BASE_HL] + [[key, v]], "list"],
+                        ["serve", a, "GET", "plain"], ["read_headers"], ["serve", b, "HEAD", "304"]]})
+                    out.append({"kind": "edit", "cond0": cond0, "init": [list(x) for x in BASE_HL], "ops": [
+                        prime, ["del_headerlist"], ["set_location", v], ["serve", a, "GET", "plain"],
+                        ["hl_slice", [list(x) for x in BASE_HL] + [[key, v]]], ["serve", b, "GET", "206"]]})
+    return out
+
+
+def edit_stage(ctx, seeds_only=False):
+    cases = edit_seeds()
+    if not seeds_only:
+        rng = ctx.sub_rng("edit")
+        cases += [rand_edit_history(rng) for _ in range(ctx.scale(2500, 40000))]
+    serves = 0
+    for case in cases:
+        serves += sum(1 for o in case["ops"] if o[0] == "serve")
+        res = check_edit_history(case)
+        if res:
+            ctx.fail(res[0], res[1], case, True, "edit")
+    ctx.oracle_count("edit", len(cases), serves)
+
+
+
 # ============================================================================ implementation adaptors (correspondence)
 def impl_urlsplit(url, scheme):
     from urllib.parse import urlsplit
@@ -1078,6 +1269,7 @@ def run(ctx):
     seed_stage(ctx)
     history_stage(ctx, seeds_only=True)
     cfg_stage(ctx, seeds_only=True)
+    edit_stage(ctx, seeds_only=True)
     rng = ctx.sub_rng("corr")
 
     # ---- urllib.parse model vs urllib.parse
@@ -1252,8 +1444,45 @@ def run(ctx):
             ctx.broken.append("correspondence http_move_shapes: model and implementation disagree on %s (impl: %r)"
                               % (json.dumps(c), cases[i][1]))
 
+    # ---- ONE Response edited between requests: the model's input is the CURRENT header list at each serve
+    cases = []
+    for i in range(ctx.scale(250, 2500)):
+        h = rand_edit_history(rng)
+        rec = []
+
+        def on_serve(i_, raw, r, res, o, rec=rec):
+            rec.append((raw, r, bool(res.conditional_response), o))
+            return None
+
+        run_edit_history(h, on_serve)
+        for j, (raw, r, cond, o) in enumerate(rec[:3]):
+            e = o[1]
+            if r[0] == "raise":
+                out = Err(r[1])
+            elif cond:
+                out = [v for k, v in r[1] if k.lower() == "location"]
+            else:
+                out = [[k, v] for k, v in r[1]]
+            cases.append(("(%s, %s, %s)" % (cbool(not cond), cenv(e), cheaders(raw)), out,
+                          {"edit": h, "serve_no": j, "raw": [list(x) for x in raw]}))
+    bad = ctx.corr("edited_response_history", IMPORTS,
+                   "(fun c => match c with "
+                   "| (true, e, hl) => hres_obs (plain_headerlist e hl) "
+                   "| (false, e, hl) => match abs_headerlist e hl with HOk h => VList (map VStr (locations h)) "
+                   "| HValueError => e_ValueError | HUnsupported => e_unsupported end end)", cases,
+                   in_type="(bool * environ * list header)")
+    for i in bad[:6]:
+        h = cases[i][2]["edit"]
+        res = check_edit_history(h)
+        if res:
+            ctx.fail(res[0], res[1], h, True, "corr")
+        else:
+            ctx.broken.append("correspondence edited_response_history: model and implementation disagree on %s (impl: %r)"
+                              % (json.dumps(cases[i][2]), cases[i][1]))
+
     history_stage(ctx)
     cfg_stage(ctx)
+    edit_stage(ctx)
     oracle_sweep(ctx)
     ctx.extra["rule"] = (
         "correspondence: distinct (environ, value / header list / class) inputs, values = all strings <= 2 over "
@@ -1429,13 +1658,15 @@ def oracle_sweep(ctx):
 def replay(ctx, path):
     data = json.load(open(path))
     case = data["case"]
-    if not isinstance(case, dict) or ("path" not in case and case.get("kind") not in ("history", "order", "cfg")):
+    if not isinstance(case, dict) or ("path" not in case and case.get("kind") not in ("history", "order", "cfg", "edit")):
         print("replay: nothing executable in this file (broken obligation): %s" % data.get("what"))
         return 1
     if case.get("kind") == "history":
         res = check_history(case)
     elif case.get("kind") == "cfg":
         res = check_cfg(case)
+    elif case.get("kind") == "edit":
+        res = check_edit_history(case)
     elif case.get("kind") == "order":
         msg = order_check([(e, v) for e, v in case["items"]])
         res = ("response:order-dependent", msg) if msg else None
